@@ -499,6 +499,42 @@ func (c *Ctx) OfAt(o *Origins, in ssa.Instruction, v ssa.Value) *Ex {
 // from the operation in scope to the instruction's function (a rule then demands its condition in each).
 func (c *Ctx) CtxsOf(in ssa.Instruction) []*Origins {
 	fn := in.Parent()
+	// a function literal handed to a helper that is new on this tree and called there: its parameters are what
+	// the helper calls it with, read in the helper's own calling context
+	if fn.Parent() != nil && c.reqDepth < 4 {
+		{
+			var self ssa.Value = fn // a literal without captured variables is passed as the function itself
+			if mc := FindMakeClosure(fn); mc != nil {
+				self = mc
+			}
+			var out []*Origins
+			for _, site := range Calls(fn.Parent()) {
+				h := site.Common().StaticCallee()
+				if h == nil || h.Blocks == nil || !c.P.IsNewFunc(h) {
+					continue
+				}
+				for i, a := range site.Common().Args {
+					if a != self || i >= len(h.Params) {
+						continue
+					}
+					prm := h.Params[i]
+					for _, dc := range Calls(h) {
+						if dc.Common().Value != ssa.Value(prm) {
+							continue
+						}
+						c.reqDepth++
+						for _, oc := range c.CtxsOf(site) {
+							out = append(out, oc.Enter(h, site).Enter(fn, dc))
+						}
+						c.reqDepth--
+					}
+				}
+			}
+			if len(out) > 0 {
+				return out
+			}
+		}
+	}
 	if fn.Parent() == nil && c.P.IsNewFunc(fn) && c.reqDepth < 4 {
 		sites := c.sitesInScope(c.callersOf(fn))
 		var out []*Origins
